@@ -113,4 +113,36 @@ PROPS = {
             "compared with the model; the probe also checks monotonicity directly on those 32 results",
         ],
     },
+    "C09": {
+        "modules": [T + "C09", T + "C01"],
+        "theorems": [(T + "C09.encode_eq_least", T + "C09"),
+                     (T + "C09.encode_defined", T + "C09"),
+                     (T + "C09.encode_some_iff", T + "C09"),
+                     (T + "C09.lengthCode_mono", T + "C09"),
+                     (T + "C09.encode_mono", T + "C09"),
+                     (T + "C09.range_spec", T + "C09"),
+                     (T + "C09.ranges_tile", T + "C09"),
+                     (T + "C09.range_none_iff", T + "C09"),
+                     (T + "C09.range_nonempty", T + "C09"),
+                     (T + "C09.lengthCode_lt_170", T + "C09"),
+                     (T + "C01.tables", T + "C01"),
+                     ("TlshVerif.Ref.topval_increasing", T + "C01")],
+        "extract_keys": ["TOP_VALUE", "ENCODED_VALUE_SIZE", "length MAX"],
+        "spec_is_property": True,
+        "streams": {
+            "quick": [("default", "len", 4000), ("default", "len-sweep", 0), ("naive", "len", 2000)],
+            "thorough": [("default", "len", 100000), ("default", "len-sweep", 0), ("naive", "len", 50000),
+                         ("naive", "len-sweep", 0), ("unsafe", "len", 50000), ("unsafe", "len-sweep", 0),
+                         ("default-dev", "len", 50000), ("unsafe-dev", "len", 20000)],
+        },
+        "rule": "len-sweep evaluates FuzzyHashLengthEncoding::new on ALL 2^32 lengths in the probe (16 threads) and "
+                "emits the break points, which are compared with the reference table; other ops are single "
+                "lengths / all 256 codes",
+        "assumptions": [
+            "slice::binary_search is modelled by its contract on a strictly increasing slice (first index with "
+            "element >= key); Ref.topval strictly increasing is proved",
+            "`a generated hash carries the code of the number of bytes fed` is part of C01 (lvalue of Spec.tlsh) "
+            "and is exercised by the gen/state streams of C01",
+        ],
+    },
 }
